@@ -1,4 +1,5 @@
 import PsyVerif.Lemmas.ArrayLowerNest
+import PsyVerif.Lemmas.SameRange
 /-! # C06 — array-syntax and intrinsic lowering preserve semantics
 
 Model: `Model/ArrayLower.lean` (namespace `C06`).  The model follows the code with the repairs of
@@ -18,7 +19,15 @@ correspondence check of `harness/props/c06.py` (real accept/refuse + exported ou
   `matmatAligned` (`C06_matvec_sound_partial`, `C06_matmul_sound_partial`); the negations are the known
   findings, with kernel-checked counterexamples;
 * ArrayAccess2LoopTrans (`C06_arrayaccess2loop_sound`); Reference2ArrayRangeTrans on declared bounds
-  (`C06_ref2range_sound`).
+  (`C06_ref2range_sound`);
+* `ArrayMixin.is_lower_bound / is_upper_bound / is_full_range / same_range` (`Model/SameRange.lean`, any rank,
+  explicit / `lo:` / assumed-shape / deferred declarations, LBOUND/UBOUND or explicit range bounds, ranges in
+  different dimension positions) with `SymbolicMaths.equal` as a parameter that only has to be sound:
+  `C06_is_lower_bound_sound`, `C06_same_range_start_sound` (fixed shortcut) / `_partial` (HEAD) +
+  `C06_same_range_shortcut_counterexample`, `C06_same_range_step_sound`, `C06_index_expr_sound` (the emitted index
+  is right whether `same_range` said True or False), `C06_arrayassign_decision_sound` and
+  `C06_arrayassign_cross_sound(_partial)` (element-wise semantics of the loop built from those decisions),
+  `C06_linEq_sound` (the stand-in for SymbolicMaths the driver uses).
 Evaluated with gfortran only (no Lean statement): sections with more than two ranges or on arrays of rank > 2,
 structure members, reductions over rank-2 sections (the loop nest is the one of `C06_arrayassign2_sound`
 around the accumulator statement), matrix operands with extra fixed dimensions, AllArrayAccess2LoopTrans. -/
@@ -345,5 +354,176 @@ example : (exec (matmatCode 7 8 9 ⟨0, 1, 2, 1, 2⟩ ⟨1, 1, 2, 0, 1⟩ ⟨2, 
     (storeOf [((1, 2, 0), 2), ((1, 2, 1), 3), ((2, 0, 2), 5), ((2, 1, 2), 7)])) (0, 2, 2) = 31 := by decide
 example : (exec (applyAcc 7 ⟨0, .var 3, .bin .add (.idx1 1 (.var 9)) (.var 2), 9⟩)
     (storeOf [((3, 0, 0), 4), ((1, 4, 0), 10), ((2, 0, 0), 1)])) (0, 4, 0) = 11 := by decide
+
+
+/-! ## `same_range` and the index offset (section positions, declared lower bounds) -/
+
+/-- the linear normal form the driver uses in place of `SymbolicMaths.equal` is sound -/
+theorem C06_linEq_sound : EqSound linEq := linEq_sound
+
+/-- **`is_lower_bound`**: a range for which it answers True starts at the run-time LBOUND of its dimension
+(explicit, `lo:`, assumed-shape and deferred declarations; `LBOUND(a, d)` or an expression `SymbolicMaths`
+proves equal to the declared lower bound). -/
+theorem C06_is_lower_bound_sound {eq : Expr → Expr → Bool} (heq : EqSound eq) (D : Decls) (σ : Store) (a : Acc)
+    (i : Nat) (s t : Bnd) (p : Expr) (hD : a.shape = D a.arr) (hix : a.idx[i]? = some (.rng s t p))
+    (h : isLower eq a i = true) : s.val D σ = (Bnd.lb a.arr i).val D σ :=
+  isLower_sound heq D σ a i s t p hD hix h
+
+/-- the full statement for `same_range`, parametrised by the variant of the same-array shortcut -/
+def C06_same_range_statement (fixed : Bool) : Prop :=
+  ∀ (eq : Expr → Expr → Bool), EqSound eq → ∀ (D : Decls) (σ : Store) (sameStmt : Bool) (a1 a2 : Acc) (i1 i2 : Nat)
+    (s1 t1 s2 t2 : Bnd) (p1 p2 : Expr), a1.shape = D a1.arr → a2.shape = D a2.arr →
+    a1.idx[i1]? = some (.rng s1 t1 p1) → a2.idx[i2]? = some (.rng s2 t2 p2) →
+    sameRange fixed eq sameStmt a1 i1 a2 i2 = some true → s1.val D σ = s2.val D σ
+
+/-- **`same_range` (shortcut restricted to the same dimension, fixes/C06-same-range-same-dimension.patch)**:
+whenever it answers True the two ranges start at the same value, for every store, every declaration kind,
+every rank and every pair of dimension positions — the loop index can be shared. -/
+theorem C06_same_range_start_sound : C06_same_range_statement true := by
+  intro eq heq D σ ss a1 a2 i1 i2 s1 t1 s2 t2 p1 p2 hD1 hD2 h1 h2 h
+  exact sameRange_start_sound heq D σ true ss a1 a2 i1 i2 s1 t1 s2 t2 p1 p2 hD1 hD2 h1 h2 (Or.inl rfl) h
+
+/-- **`same_range` at HEAD (partial)**: sound when two accesses to the SAME array are only compared in the same
+dimension position. -/
+theorem C06_same_range_start_sound_partial {eq : Expr → Expr → Bool} (heq : EqSound eq) (D : Decls) (σ : Store)
+    (sameStmt : Bool) (a1 a2 : Acc) (i1 i2 : Nat) (s1 t1 s2 t2 : Bnd) (p1 p2 : Expr)
+    (hD1 : a1.shape = D a1.arr) (hD2 : a2.shape = D a2.arr)
+    (h1 : a1.idx[i1]? = some (.rng s1 t1 p1)) (h2 : a2.idx[i2]? = some (.rng s2 t2 p2))
+    (hside : a1.arr = a2.arr → i1 = i2)
+    (h : sameRange false eq sameStmt a1 i1 a2 i2 = some true) : s1.val D σ = s2.val D σ :=
+  sameRange_start_sound heq D σ false sameStmt a1 a2 i1 i2 s1 t1 s2 t2 p1 p2 hD1 hD2 h1 h2 (Or.inr hside) h
+
+/-- `real :: a(0:3, 1:4)` (array 0): the accesses `a(:, 1)` and `a(0, :)` -/
+def crossShape : List DimDecl := [.bounds (.lit 0) (.lit 3), .bounds (.lit 1) (.lit 4)]
+def crossA1 : Acc := ⟨0, crossShape, [.rng (.lb 0 0) (.ub 0 0) (.lit 1), .at (.lit 1)]⟩
+def crossA2 : Acc := ⟨0, crossShape, [.at (.lit 0), .rng (.lb 0 1) (.ub 0 1) (.lit 1)]⟩
+def crossD : Decls := fun a => if a = 0 then crossShape else []
+
+/-- the side condition is necessary: at HEAD `same_range` answers True for `a(:,1)` / `a(0,:)` of
+`a(0:3,1:4)` (same array, both ranges start at "the" lower bound) although the ranges start at 0 and 1;
+with the shortcut restricted to the same dimension it answers False.  (`x = SUM(a(:,1) * a(0,:))` is lowered to
+`a(idx,1) * a(0,idx)`, idx = 0..3: known finding C06-same-array-cross-dimension.) -/
+theorem C06_same_range_shortcut_counterexample : ¬ C06_same_range_statement false := by
+  intro h
+  have := h linEq linEq_sound crossD (storeOf []) true crossA1 crossA2 0 1 (.lb 0 0) (.ub 0 0) (.lb 0 1) (.ub 0 1)
+    (.lit 1) (.lit 1) rfl rfl rfl rfl (by decide)
+  revert this
+  decide
+
+example : sameRange true linEq true crossA1 0 crossA2 1 = some false := by decide
+
+/-- outside the shortcut a True answer also means the steps were proved equal -/
+theorem C06_same_range_step_sound {eq : Expr → Expr → Bool} (heq : EqSound eq) (σ : Store)
+    (fixed sameStmt : Bool) (a1 a2 : Acc) (i1 i2 : Nat) (s1 t1 s2 t2 : Bnd) (p1 p2 : Expr)
+    (h1 : a1.idx[i1]? = some (.rng s1 t1 p1)) (h2 : a2.idx[i2]? = some (.rng s2 t2 p2))
+    (hno : (isLower eq a1 i1 && (a1.arr == a2.arr) && (!fixed || i1 == i2) && isLower eq a2 i2) = false)
+    (h : sameRange fixed eq sameStmt a1 i1 a2 i2 = some true) : eval p1 σ = eval p2 σ :=
+  sameRange_step_sound heq σ fixed sameStmt a1 a2 i1 i2 s1 t1 s2 t2 p1 p2 h1 h2 hno h
+
+/-- **the emitted index expression is right, whatever `same_range` answered** (any rank, any positions): in
+iteration `n` of the loop over the lhs range, `idx` (answer True) resp. `idx + (start₂ - start₁)` (answer False)
+evaluates to start₂ + n·step, the index of element `n` of the other range. -/
+theorem C06_index_expr_sound {eq : Expr → Expr → Bool} (heq : EqSound eq) (D : Decls) (τ : Store)
+    (sameStmt : Bool) (a1 a2 : Acc) (i1 i2 : Nat) (s1 t1 s2 t2 : Bnd) (p1 p2 : Expr) (same : Bool)
+    (hD1 : a1.shape = D a1.arr) (hD2 : a2.shape = D a2.arr)
+    (h1 : a1.idx[i1]? = some (.rng s1 t1 p1)) (h2 : a2.idx[i2]? = some (.rng s2 t2 p2))
+    (h : sameRange true eq sameStmt a1 i1 a2 i2 = some same) (idx : Nat) (n st : Int)
+    (hidx : τ (idx, 0, 0) = s1.val D τ + n * st) :
+    eval (idxExprB D same idx s1 s2) τ = s2.val D τ + n * st :=
+  idxExprB_eval D same idx s1 s2 τ n st hidx
+    (fun hs => sameRange_start_sound heq D τ true sameStmt a1 a2 i1 i2 s1 t1 s2 t2 p1 p2 hD1 hD2 h1 h2
+      (Or.inl rfl) (hs ▸ h))
+
+/-- **ArrayAssignment2LoopsTrans with explicit `same_range` decisions**: for ANY decision table that says True
+only for sections starting where the lhs section starts, the generated loop (shared index where True, offset
+index where False) computes the Fortran array assignment. -/
+theorem C06_arrayassign_decision_sound (dec : Sec → Bool) (idx : Nat) (a : AAIn) (hv : validateAA a = none)
+    (hno : a.allowOverlap = false) (hidx : idx ∉ a.lhs.arr :: (a.lhs.svars ++ a.rhs.allvars)) (σ : Store)
+    (hdec : ∀ s ∈ a.rhs.secs, dec s = true → eval s.lo σ = eval a.lhs.lo σ) :
+    AgreeOn (fun y => y ≠ idx) (exec (applyAAD dec idx a) σ) (execAA a σ) := by
+  obtain ⟨_, hstride, hsame, hsc⟩ := validateAA_none a hv hno
+  intro y hy i j
+  simp only [applyAAD, exec, runIters_eq_iters, execAA, Sec.count]
+  rw [Store.set_other _ _ (loc_ne i j hy)]
+  by_cases hst : eval a.lhs.st σ = 0
+  · simp [trip, hst, iters, writeVals]
+  · exact applyAAD_iters dec idx a σ hdec hstride hsame hsc hidx hst _ y hy i j
+
+/-- **sections in different dimension positions, declared bounds of every kind** (rank ≤ 2 semantics): the loop
+`ArrayAssignment2LoopsTrans` builds from the `same_range` answers on the PSyIR accesses (`decOf`) computes the
+array assignment — with the same-dimension shortcut unconditionally … -/
+theorem C06_arrayassign_cross_sound {eq : Expr → Expr → Bool} (heq : EqSound eq) (D : Decls) (l : Acc)
+    (accs : List Acc) (idx : Nat) (a : AAIn) (s : Stmt)
+    (hDl : l.shape = D l.arr) (hD : ∀ x ∈ accs, x.shape = D x.arr) (hl : l.toSec D = some a.lhs)
+    (ht : transAAacc D true eq idx l accs a = .ok s) (hno : a.allowOverlap = false)
+    (hidx : idx ∉ a.lhs.arr :: (a.lhs.svars ++ a.rhs.allvars)) (σ : Store) :
+    AgreeOn (fun y => y ≠ idx) (exec s σ) (execAA a σ) := by
+  unfold transAAacc at ht
+  cases hv : validateAA a with
+  | some r => simp [hv] at ht
+  | none =>
+    simp only [hv, Except.ok.injEq] at ht
+    subst ht
+    exact C06_arrayassign_decision_sound _ idx a hv hno hidx σ
+      (fun s _ h => decOf_sound heq D true l accs a.lhs s σ hDl hD (Or.inl rfl) hl h)
+
+/-- … and at HEAD when no rhs access to the lhs ARRAY has its range in another position (always the case for
+an assignment `validate` accepts without `allow_overlap`; not for the synthetic assignment of the reductions). -/
+theorem C06_arrayassign_cross_sound_partial {eq : Expr → Expr → Bool} (heq : EqSound eq) (D : Decls) (l : Acc)
+    (accs : List Acc) (idx : Nat) (a : AAIn) (s : Stmt)
+    (hDl : l.shape = D l.arr) (hD : ∀ x ∈ accs, x.shape = D x.arr) (hl : l.toSec D = some a.lhs)
+    (hside : ∀ x ∈ accs, l.arr = x.arr → l.rpos = x.rpos)
+    (ht : transAAacc D false eq idx l accs a = .ok s) (hno : a.allowOverlap = false)
+    (hidx : idx ∉ a.lhs.arr :: (a.lhs.svars ++ a.rhs.allvars)) (σ : Store) :
+    AgreeOn (fun y => y ≠ idx) (exec s σ) (execAA a σ) := by
+  unfold transAAacc at ht
+  cases hv : validateAA a with
+  | some r => simp [hv] at ht
+  | none =>
+    simp only [hv, Except.ok.injEq] at ht
+    subst ht
+    exact C06_arrayassign_decision_sound _ idx a hv hno hidx σ
+      (fun s _ h => decOf_sound heq D false l accs a.lhs s σ hDl hD (Or.inr hside) hl h)
+
+/-- `v(:) = e2(2,:) + m(2,:)` with `v(1:4)`, `e2(1:4,0:3)`, `m(1:4,1:4)` (arrays 1, 2, 3) -/
+def xD : Decls := fun a =>
+  if a = 1 then [.bounds (.lit 1) (.lit 4)]
+  else if a = 2 then [.bounds (.lit 1) (.lit 4), .bounds (.lit 0) (.lit 3)]
+  else if a = 3 then [.bounds (.lit 1) (.lit 4), .bounds (.lit 1) (.lit 4)] else []
+def xL : Acc := ⟨1, xD 1, [.rng (.lb 1 0) (.ub 1 0) (.lit 1)]⟩
+def xE : Acc := ⟨2, xD 2, [.at (.lit 2), .rng (.lb 2 1) (.ub 2 1) (.lit 1)]⟩
+def xM : Acc := ⟨3, xD 3, [.at (.lit 2), .rng (.lb 3 1) (.ub 3 1) (.lit 1)]⟩
+def xLs : Sec := ⟨1, .r1, .lit 1, .lit 4, .lit 1⟩
+def xEs : Sec := ⟨2, .col (.lit 2), .lit 0, .lit 3, .lit 1⟩
+def xMs : Sec := ⟨3, .col (.lit 2), .lit 1, .lit 4, .lit 1⟩
+def xAA : AAIn := ⟨xLs, .bin .add (.sec xEs) (.sec xMs), false, false⟩
+
+-- non-vacuity: the hypotheses of `C06_arrayassign_cross_sound` hold on this input and the two answers differ
+example : xL.toSec xD = some xAA.lhs ∧ xE.toSec xD = some xEs ∧ xM.toSec xD = some xMs := by decide
+example : sameRange true linEq true xL 0 xE 1 = some false ∧ sameRange true linEq true xL 0 xM 1 = some true := by
+  decide
+example : (match transAAacc xD true linEq 7 xL [xE, xM] xAA with
+    | .ok s => decide (s = .loop 7 (.lit 1) (.lit 4) (.lit 1) (.store1 1 (.var 7)
+        (.bin .add (.idx2 2 (.lit 2) (.bin .add (.var 7) (.bin .sub (.lit 0) (.lit 1)))) (.idx2 3 (.lit 2) (.var 7)))))
+    | .error _ => false) = true := by
+  decide
+example : 7 ∉ xAA.lhs.arr :: (xAA.lhs.svars ++ xAA.rhs.allvars) := by decide
+-- reading the declared lower bound of the WRONG dimension (e2's first, 1) would share the index: e2(2,1) instead of e2(2,0)
+example : (exec (applyAAD (fun _ => true) 7 xAA) (storeOf [((2, 2, 0), 5), ((2, 2, 1), 9)])) (1, 1, 0) = 9
+    ∧ (execAA xAA (storeOf [((2, 2, 0), 5), ((2, 2, 1), 9)])) (1, 1, 0) = 5 := by decide
+-- assumed-shape (`e(:)`, LBOUND 1), `f(0:)`, symbolic `g(n:)` and allocatable declarations
+example : sameRange true linEq true ⟨1, [.bounds (.lit 1) (.lit 4)], [.rng (.lb 1 0) (.ub 1 0) (.lit 1)]⟩ 0
+    ⟨2, [.attribute (.var 9)], [.rng (.lb 2 0) (.ub 2 0) (.lit 1)]⟩ 0 = some true := by decide
+example : sameRange true linEq true ⟨1, [.bounds (.lit 1) (.lit 4)], [.rng (.lb 1 0) (.ub 1 0) (.lit 1)]⟩ 0
+    ⟨2, [.lowerOnly (.lit 0) (.var 9)], [.rng (.lb 2 0) (.ub 2 0) (.lit 1)]⟩ 0 = some false := by decide
+example : sameRange true linEq true ⟨1, [.lowerOnly (.var 5) (.var 9)], [.rng (.lb 1 0) (.ub 1 0) (.lit 1)]⟩ 0
+    ⟨2, [.bounds (.bin .add (.var 5) (.lit 0)) (.var 8)], [.rng (.e (.var 5)) (.e (.var 8)) (.lit 1)]⟩ 0 = some true := by decide
+example : sameRange true linEq true ⟨1, [.bounds (.lit 1) (.lit 4)], [.rng (.lb 1 0) (.ub 1 0) (.lit 1)]⟩ 0
+    ⟨2, [.deferred (.var 8) (.var 9)], [.rng (.lb 2 0) (.ub 2 0) (.lit 1)]⟩ 0 = some false := by decide
+example : isFullRange linEq ⟨1, [.bounds (.lit 1) (.lit 4)], [.rng (.e (.lit 1)) (.e (.lit 4)) (.lit 1)]⟩ 0 = some true
+    ∧ isFullRange linEq ⟨1, [.bounds (.lit 1) (.lit 4)], [.rng (.e (.lit 1)) (.e (.lit 4)) (.lit 2)]⟩ 0 = some false
+    ∧ isUpper linEq ⟨1, [.lowerOnly (.lit 0) (.var 9)], [.rng (.lb 1 0) (.e (.lit 3)) (.lit 1)]⟩ 0 = none := by decide
+example : linEq (.bin .add (.var 1) (.lit 1)) (.bin .sub (.bin .add (.lit 2) (.var 1)) (.lit 1)) = true
+    ∧ linEq (.var 1) (.var 2) = false ∧ linEq (.bin .mul (.lit 2) (.var 1)) (.bin .add (.var 1) (.var 1)) = true := by decide
 
 end C06
